@@ -72,6 +72,9 @@ fn warm_up() {
     let w = ragc_common::verif::World::new();
     let _ = simrun::run_sim(w, &spec, 1000, 64 << 10, || 0u8);
     simrun::install_quiet_panic_hook();
+    rayon::verif::set_probe_hook(|name, n| {
+        ragc_common::verif::with(|w| *w.probes.entry(name).or_insert(0) += n);
+    });
 }
 
 fn worker(args: &[String]) -> i32 {
